@@ -17,7 +17,7 @@ const SPEC: Spec = Spec {
         "the padding reference implements the standard integer padding rules and is validated at start-up against i128/u128 formatting for every spec",
         "refint Horner evaluation is trusted; cross-checked against Python on a transcript slice",
     ],
-    bounds_quick: "V1 every integer < 65536 x radix 2..=36 (text) and 2..=256 (digits); V2 Dense(S5,3) x all radices; V3 r^k-1,r^k,r^k+1 for k <= 3*power(r)+2 and at 62..66 / 127..130 native digits, all radices 2..=36 text and 2..=256 digits; V4 12 patterns x every length 1..=70 and {100,129,257} x all radices; V6 dense LCG values of every length 1..=70; V5 big-base powers, all radices; F 224 specs x 6 traits x 16 values; P1 all strings of length <= 5 over 12 symbols (+bytes <= 4 over 14 byte values); P2 well-formed long inputs, all radices 2..=36; P3 all radices 2..=256; V7 values of 300 and 1100 native digits (dense, all-ones, power of two) x 12 radices",
+    bounds_quick: "V1 every integer < 65536 x radix 2..=36 (text) and 2..=256 (digits); V2 Dense(S5,3) x all radices; V3 r^k-1,r^k,r^k+1 for k <= 3*power(r)+2 and at 62..66 / 127..130 native digits, all radices 2..=36 text and 2..=256 digits; V4 12 patterns x every length 1..=70 and {100,129,257} x all radices; V6 dense LCG values of every length 1..=70; V5 big-base powers, all radices; F 224 specs x 5 pinned traits (+ Debug, informational) x 16 values; P1 all strings of length <= 5 over 12 symbols (+bytes <= 4 over 14 byte values); P2 well-formed long inputs, all radices 2..=36; P3 all radices 2..=256; V7 values of 300 and 1100 native digits (dense, all-ones, power of two) x 12 radices",
     bounds_thorough: "V1 every integer < 2^18; V2; V3 also at 255..258 and 400 native digits; V4 30 lengths up to 1025 (every sqrt boundary of the big-base target length); V5; F; P1 length <= 6 (bytes <= 5); P2; P3; V7 up to 4099 digits",
     hang_secs: 180,
     probes: Some(probes),
@@ -281,7 +281,10 @@ fn fmt_value(ctx: &mut Ctx, v: &Int) {
         for (i, sp) in SPECS.iter().enumerate() {
             ctx.compared(1);
             let want = ref_pad(sp, !v.neg, prefix, &digits);
-            if tab[i] != want {
+            if tab[i] != want && *name == "Debug" {
+                // the property names Display/Binary/Octal/LowerHex/UpperHex; Debug output is not pinned by it
+                ctx.count("debug_format_differs_from_display_rules", 1);
+            } else if tab[i] != want {
                 ctx.viol(format!("BigInt {} spec '{}' v={}", name, sp.text, v.to_hex()), "formatted text differs from the standard integer padding rules", vec![format!("spec={}", sp.text), format!("v={}", v.to_hex())], want, tab[i].clone());
             }
         }
@@ -301,7 +304,9 @@ fn fmt_value(ctx: &mut Ctx, v: &Int) {
             for (i, sp) in SPECS.iter().enumerate() {
                 ctx.compared(1);
                 let want = ref_pad(sp, true, prefix, &digits);
-                if tab[i] != want {
+                if tab[i] != want && *name == "Debug" {
+                    ctx.count("debug_format_differs_from_display_rules", 1);
+                } else if tab[i] != want {
                     ctx.viol(format!("BigUint {} spec '{}' v={}", name, sp.text, v.to_hex()), "formatted text differs from the standard integer padding rules", vec![format!("spec={}", sp.text), format!("v={}", v.to_hex())], want, tab[i].clone());
                 }
             }
